@@ -33,7 +33,7 @@ FEES = {"free": (F(0), F(0)), "paid": (F(1), F(1, 100)), "dy": (F(1), F(1, 16))}
 
 def model(name, contracts, ops, depth, fees="paid", bids=(8, 12), spreads=(0, 2), dqs=(-2, -1, 1, 2),
           lots=(), reqs=(), steps=(1,), rate=F(0), markup=F(0), deposit=F(1000),
-          refrule="carry", spotmult="applied", sublot="skip", invariants=(), properties=(), dyadic=False, maxrebal=99, maxclk=99):
+          refrule="carry", spotmult="applied", sublot="skip", invariants=(), properties=(), dyadic=False, maxrebal=99, maxclk=99, epsilon=F(0), dq_rats=None):
     cs = {c: CONTRACTS[c] for c in contracts}
     fixed, prop = FEES[fees]
     defs = {
@@ -41,8 +41,8 @@ def model(name, contracts, ops, depth, fees="paid", bids=(8, 12), spreads=(0, 2)
         "Mult": {c: cs[c]["mult"] for c in contracts},
         "CashReq": {c: cs[c]["cashreq"] for c in contracts},
         "Mr": {c: cs[c]["mr"] for c in contracts},
-        "Fixed": fixed, "Prop": prop, "Deposit": deposit, "Rate": rate, "Markup": markup,
-        "Ops": set(ops), "Bids": set(bids), "Spreads": set(spreads), "DQs": set(dqs),
+        "Fixed": fixed, "Prop": prop, "Deposit": deposit, "Rate": rate, "Markup": markup, "Epsilon": epsilon,
+        "Ops": set(ops), "Bids": set(bids), "Spreads": set(spreads), "DQs": {F(d) for d in dqs},
         "LotTargets": set(), "Reqs": set(), "Steps": set(steps),
     }
     # sets of functions / records need raw rendering (dicts are not hashable)
@@ -50,11 +50,11 @@ def model(name, contracts, ops, depth, fees="paid", bids=(8, 12), spreads=(0, 2)
     defs["Reqs"] = tlagen.Raw("{" + ", ".join(tlagen.tla(r) for r in reqs) + "}")
     plain = {"RefRule": refrule, "SpotMult": spotmult, "SubLot": sublot, "MaxDepth": depth, "MaxRebal": maxrebal, "MaxClk": maxclk}
     return {
-        "name": name,
+        "name": name, "depth": depth,
         "module": tlagen.mc_module("MC", "Broker", defs),
         "cfg": tlagen.cfg(defs, plain, invariants=invariants, properties=properties, view="view"),
         "py": {"contracts": cs, "fixed": fixed, "prop": prop, "deposit": deposit, "rate": rate,
-               "markup": markup, "dyadic": dyadic},
+               "markup": markup, "dyadic": dyadic, "epsilon": epsilon},
         "invariants": list(invariants), "properties": list(properties),
     }
 
@@ -65,11 +65,13 @@ def req(alloc, measure="weight", thr=F(0), fractional=True):
 
 # ---------------------------------------------------------------------------------- replay workers
 _MODEL = None
+_OWNED = None
 
 
-def _init_worker(py_model, repo):
-    global _MODEL
+def _init_worker(py_model, repo, owned=None):
+    global _MODEL, _OWNED
     _MODEL = py_model
+    _OWNED = owned
     if repo:
         os.environ["VERIF_REPO"] = repo
 
@@ -107,6 +109,24 @@ def failure_key(model, ops, step, clause):
     return "/".join(parts)
 
 
+def replay_chunk(ctx, texts):
+    """worker for explore.explore_and_replay / simulate_and_replay: ctx is the python-side model"""
+    global _MODEL, _OWNED
+    _MODEL = ctx["py"]
+    _OWNED = ctx["owned"]
+    out = _replay_chunk(texts)
+    for f in out["fails"]:
+        f["case"] = {"kind": "broker", "model": ctx["py"], "ops": f.pop("ops"), "step": f["step"]}
+    return out
+
+
+def simulate(rep, m, clauses, num, depth, seed):
+    from . import explore
+    cfg = m["cfg"].replace("MaxDepth = %d" % m["depth"], "MaxDepth = %d" % depth)
+    explore.simulate_and_replay(rep, m["name"], m["module"], cfg, ("harness.broker_check", "replay_chunk"), {"py": m["py"], "owned": set(clauses)}, clauses,
+                                num, depth, seed, m["invariants"], m["properties"])
+
+
 def _replay_chunk(texts):
     from . import replay_broker
     out = {"n": 0, "ops": 0, "fails": [], "classes": {}, "sample": None}
@@ -115,7 +135,7 @@ def _replay_chunk(texts):
         ops = list(s["hist"])
         if not ops:
             continue
-        fails, nops = replay_broker.run_case(_MODEL, ops, s["st"])
+        fails, nops = replay_broker.run_case(_MODEL, ops, s["st"], owned=_OWNED)
         out["n"] += 1
         out["ops"] += nops
         k = ops[-1]["op"] + ":" + ops[-1]["out"]
@@ -123,7 +143,8 @@ def _replay_chunk(texts):
         if out["sample"] is None and len(ops) >= 3:
             out["sample"] = ops
         for (i, clause, detail) in fails:
-            if len(out["fails"]) < 50:
+            own = _OWNED is None or clause in _OWNED
+            if (own and sum(1 for f in out["fails"] if f["clause"] == clause) < 20) or (not own and len(out["fails"]) < 10):
                 out["fails"].append({"step": i, "clause": clause, "detail": detail, "ops": ops[: i + 1],
                                      "key": failure_key(_MODEL, ops, i, clause)})
     return out
@@ -176,7 +197,7 @@ def explore_and_replay(rep, m, clauses, workers=8, procs=14, max_states=None):
                           {"model": m["name"], "ops": jsonable(ops), "tlc": (res.trace or "")[:4000]})
             return
         ctx = mp.get_context("fork")
-        with ctx.Pool(procs, initializer=_init_worker, initargs=(m["py"], os.environ.get("VERIF_REPO"))) as pool:
+        with ctx.Pool(procs, initializer=_init_worker, initargs=(m["py"], os.environ.get("VERIF_REPO"), set(clauses))) as pool:
             for out in pool.imap_unordered(_replay_chunk, _chunks(res.dump_path)):
                 rep.traces += out["n"]
                 rep.evaluations += out["ops"]
